@@ -98,8 +98,7 @@ class FnContract:
         event = {'kind': 'call', 'callee': self.qual, 'args': full, 'heap_before': K.heap, 'heap_after': ctx.heap}
         ctx.ghost.setdefault('events', []).append(event)
         for cls, cond in self.may_raise(K):
-            c = cond if cond is not None else ctx.fresh(f'raises_{cls.replace(" ", "_")}', Bool)
-            if ctx.branch(c):
+            if (ctx.choice(f'raises_{cls.replace(":", "_")}') if cond is None else ctx.branch(cond)):
                 exc = self.make_exception(ip, cls)
                 out = Outcome('raise', exc=exc)
                 event['outcome'] = out
